@@ -310,6 +310,15 @@ type totals struct {
 	obsCfg          map[string]Config
 	perCfg          []map[string]any
 	lost            int
+	drainEvents     int
+	probes          int
+	lateAnswers     int
+	execLate        int
+	execLateFollow  int
+	execLateFull    int
+	acctChecks      int
+	sendChecks      int
+	partB           map[string]int
 	poisoned        int
 	mismatchSamples []string
 	details         []string
@@ -323,6 +332,21 @@ func (t *totals) merge(cfg Config, r *subtreeResult) {
 	t.events += r.Events
 	t.nontrivial += r.NonTrivial
 	t.diverged += r.Diverged
+	t.drainEvents += r.DrainEvents
+	t.probes += r.Probes
+	t.lateAnswers += r.LateAnswers
+	t.execLate += r.ExecLate
+	t.execLateFollow += r.ExecLateFollow
+	t.execLateFull += r.ExecLateFull
+	t.acctChecks += r.AcctChecks
+	t.sendChecks += r.SendChecks
+	if cfg.Part == "B" {
+		t.partB["executions"] += r.Executions
+		t.partB["events"] += r.Events
+		t.partB["late_answers_to_abandoned_requests"] += r.LateAnswers
+		t.partB["executions_with_late_answer_then_further_call"] += r.ExecLateFollow
+		t.partB["executions_with_at_least_limit_late_answers_then_further_call"] += r.ExecLateFull
+	}
 	for _, s := range r.States {
 		t.states[s] = struct{}{}
 	}
@@ -384,10 +408,10 @@ func (t *totals) merge(cfg Config, r *subtreeResult) {
 var run *ev.Run
 
 func tierConfigs(thorough bool) []Config {
-	if s := os.Getenv("VERIF_C18_CFG"); s != "" { // diagnostics: callers,maxf,conns,limit,variants,stale,addrx
+	if s := os.Getenv("VERIF_C18_CFG"); s != "" { // diagnostics: callers,maxf,conns,limit,variants,stale,addrx[,part]
 		var c Config
 		var v, st, ax int
-		fmt.Sscanf(s, "%d,%d,%d,%d,%d,%d,%d", &c.Callers, &c.MaxF, &c.Conns, &c.Limit, &v, &st, &ax)
+		fmt.Sscanf(s, "%d,%d,%d,%d,%d,%d,%d,%s", &c.Callers, &c.MaxF, &c.Conns, &c.Limit, &v, &st, &ax, &c.Part)
 		c.Variants, c.Stale, c.AddrX = v != 0, st != 0, ax != 0
 		return []Config{c}
 	}
@@ -397,9 +421,24 @@ func tierConfigs(thorough bool) []Config {
 			{Callers: 3, MaxF: 3, Conns: 1, Variants: true, Stale: true, AddrX: true},
 			// concurrency limit 1: later requests queue inside the send loop (priorities matter, batches > 1)
 			{Callers: 3, MaxF: 2, Conns: 1, Limit: 1, Variants: true, Stale: false, AddrX: false},
+			// concurrency limit 2 with the whole alphabet of part A
+			{Callers: 3, MaxF: 2, Conns: 1, Limit: 2, Variants: true, Stale: false, AddrX: false},
+			// part B: callers give up after their request was written, the server answers late, further calls
+			// (plain = with time-out, a = asynchronous, no deadline) follow on the healthy store; limits 1, 2, default
+			{Part: "B", Callers: 3, MaxF: 3, Conns: 1, Limit: 1},
+			{Part: "B", Callers: 3, MaxF: 3, Conns: 1, Limit: 2},
+			{Part: "B", Callers: 3, MaxF: 3, Conns: 1},
+			{Part: "B", Callers: 4, MaxF: 3, Conns: 1, Limit: 1},
+			{Part: "B", Callers: 4, MaxF: 2, Conns: 1, Limit: 2},
 		}
 	}
 	return []Config{
+		{Part: "B", Callers: 5, MaxF: 4, Conns: 1, Limit: 1},
+		{Part: "B", Callers: 5, MaxF: 4, Conns: 1, Limit: 2},
+		{Part: "B", Callers: 5, MaxF: 4, Conns: 1, Limit: 3},
+		{Part: "B", Callers: 5, MaxF: 3, Conns: 1},
+		{Part: "B", Callers: 4, MaxF: 3, Conns: 2, Limit: 1},
+		{Callers: 3, MaxF: 3, Conns: 1, Limit: 2, Variants: true, Stale: true, AddrX: true},
 		{Callers: 2, MaxF: 4, Conns: 1, Variants: true, Stale: true, AddrX: true},
 		{Callers: 3, MaxF: 4, Conns: 1, Variants: true, Stale: true, AddrX: true},
 		{Callers: 4, MaxF: 3, Conns: 1, Variants: true, Stale: true, AddrX: true},
@@ -439,10 +478,10 @@ func exploreConfig(cfg Config, tot *totals, samples *ev.Samples, nproc int, dead
 	sort.SliceStable(items, func(i, j int) bool {
 		ci, cj := 0, 0
 		for _, e := range items[i] {
-			ci += eventCost(e)
+			ci += cfg.cost(e)
 		}
 		for _, e := range items[j] {
-			cj += eventCost(e)
+			cj += cfg.cost(e)
 		}
 		return ci < cj
 	})
@@ -613,7 +652,7 @@ func main() {
 	}
 	deadline := time.Now().Add(budget)
 	tot := &totals{states: map[uint64]struct{}{}, outcomes: map[string]int{}, inconclusive: map[string]int{}, byF: map[string]int{},
-		kinds: map[string]int{}, errorLogs: map[string]bool{}, viol: map[string]violHit{}, violCfg: map[string]Config{}, obs: map[string]violHit{}, obsCfg: map[string]Config{}}
+		kinds: map[string]int{}, partB: map[string]int{}, errorLogs: map[string]bool{}, viol: map[string]violHit{}, violCfg: map[string]Config{}, obs: map[string]violHit{}, obsCfg: map[string]Config{}}
 	samples := ev.NewSamples(6, run.Seed)
 	cfgs := tierConfigs(run.Thorough())
 	var cfgNames []string
@@ -665,6 +704,17 @@ func main() {
 		"samples":           samples.List(),
 		"bounds":            map[string]any{"configurations": cfgNames, "split_depth": "3 (5 with 4 callers)", "worker_processes": nproc},
 		"per_configuration": tot.perCfg,
+		"part_B":            tot.partB,
+		"healthy_store_oracle": map[string]any{
+			"slot_accounting_evaluations":                   tot.acctChecks,
+			"request_never_sent_evaluations_at_submissions": tot.sendChecks,
+			"drain_events":                                  tot.drainEvents,
+			"probe_calls":                                   tot.probes,
+			"late_answers_to_abandoned_requests":            tot.lateAnswers,
+			"executions_with_late_answer":                   tot.execLate,
+			"executions_with_late_answer_then_further_call": tot.execLateFollow,
+			"executions_with_at_least_limit_late_answers_then_further_call": tot.execLateFull,
+		},
 		"distinct_outcomes": len(tot.outcomes),
 		"observations":      observations,
 		"pending_until_own_timeout_after_other_stream_failure": pendingOther,
@@ -688,6 +738,7 @@ func main() {
 		"Virtual time: the caller's time-out, the send loop's idle timer (vtime rewrite of client_batch.go, conn_batch.go, client_async.go) and waitConnReady's dial budget (context shim for client_batch.go) fire only when the explorer decides; the dial budget elapses whenever the system is quiet. Function bodies are unchanged.",
 		"A call that stays pending after its stream failed is NOT a violation (the property only promises a return by the call's own time-out / cancellation / Close, which keep their own must-return rules; an asynchronous call never completed even by Close is a violation): it is counted under coverage.observations with the shortest sequence, as is the entry it leaves in the in-flight table. A stream failure must still not fail calls of other streams, and an answered call must return (own violation keys spurious-return/..., stuck/.../after-A).",
 		"A livelock is reported only on positive evidence that does not depend on time: in 40 consecutive scheduler passes the client's no-available-connection counter moved and stack snapshots show the send loop as the only goroutine that is not blocked.",
+		"Healthy-store oracle: a violation is claimed only where the environment withheld nothing - client open, no armed send failure, every needed stream alive, every request the server received answered (drain), the send loop woken by a submission / probe after the slot was free, and unbounded virtual time (the time-outs of waiting calls are never fired by the epilogue; a T event of the enumeration is a legitimate time-out and is judged by the time-out rule only). Free slots are computed from the server's table, never from the client's counters. NOT judged (observation queued_behind_limit_until_next_submission): the unchanged client re-examines calls queued behind max-concurrency-request-limit only when a new submission wakes the send loop - an answer that frees a slot does not; such a call waits for the next submission or its own time-out (an asynchronous one for ever if no further call to that store is made). Executions in which a stream failed after the stream of the other kind of its connection had failed (known unclaimed entry leak, findings/C18-candidate-fixes.diff item 1) are not judged by this oracle from that point on. With 2 connections and a finite limit only call-never-returns and slot-accounting are evaluated (which connection a call is queued for is not observable).",
 		"Batch policy 'basic' (no time based batch waiting); the server never answers on a stream of another connection or kind; stream drops do not break the connection; errors of waitConnReady (dial budget) count as connection failures.",
 	})
 }
